@@ -9,7 +9,12 @@ RULE = ("same schema family restricted to datatypes with a reference conversion 
         "trailing underscores, upper and mixed case) and given to fixed-name items that state none; a directed stream of schemas "
         "whose keys, multikeys, sections and multisections are given attribute names a value object might use for its own fields "
         "('_name', '_type', '_attributes', ...); the whole value tree is compared attribute by attribute (names, order, values, types, section "
-        "names and types); non-trivial = accepted with at least one key or section; distinct by (schema, text)")
+        "names and types); a text the schema accepts on which the loader raises something that is no configuration error yields no tree "
+        "(reported with the shortest sequence of earlier loads on a fresh schema object that reproduces it); HISTORIES of one schema "
+        "object: texts that leave the defaulted keys / multikeys / arbitrary keys of their sections out, so that the schema's defaults are "
+        "needed again and again - by several sections of one text, by the same text loaded twice, by a later text - each load compared "
+        "with `denote`, on every other schema with the application changing the containers of each result in place before the next load; "
+        "non-trivial = accepted with at least one key or section; distinct by (schema, text)")
 
 
 def run(ctx):
@@ -25,8 +30,13 @@ def run(ctx):
                 ctx.count("schema-with-attribute-name:" + k)
     bad = []
     bad_spec = []
-    for c in cases:
+    raised = []
+    for i, c in enumerate(cases):
         ctx.count("impl:" + c.out[0])
+        if c.out[0] == "internal" and c.spec is not None and c.spec[0] == "accept":
+            # the text conforms and the loader did not reject it (no configuration error), yet there is no value tree
+            ctx.count("accepted-but-loader-raised:" + str(c.out[1]))
+            raised.append((i, c))
         if c.out[0] != "ok" or c.model is None:
             continue
         if c.lines:
@@ -52,6 +62,8 @@ def run(ctx):
         if _off_spec(c):
             ctx.violate("accepted text yields a value tree different from the one the schema defines (denote)",
                         dict(c.replay(), impl=cfgrun.describe(c.cfg), expected=c.spec[1]), signature="C02:value-tree")
+    for i, c in raised[:3]:
+        _report_raised(ctx, cases[:i], c)
     for c in bad[:3]:
         small = cfgstream.shrink_lines(ctx, c, lambda cs: [x.out[0] == "ok" and x.model[0] == "ok" and not cfgrun.match_val(x.model[1], x.cfg) for x in cs])
         c.lines = small
@@ -63,6 +75,7 @@ def run(ctx):
         ok = [c for c in cases if c.out[0] == "ok"]
         for c in ok[:2]:
             ctx.sample({"lines": c.lines, "value": cfgrun.describe(c.cfg)})
+    _defaults_again(ctx, cases)
     _own_field_names(ctx)
     _prefixed_datatypes(ctx)
     return core.finish(ctx, obligations, discharged, names, RULE,
@@ -94,6 +107,221 @@ def _listed(m):
         elif m[0] in ("list", "wrap", "tup"):
             for x in m[1:]:
                 yield from _listed(x)
+
+
+# ------------------------------------------------------------------ one schema object, many loads
+SCRIBBLE = "zcv-scribble"
+
+
+def _scribble(v, seen=None):
+    """what an application may do with a value tree it was handed: change, in place, every container in it (lists get one more
+    item, mappings one more entry, the lists inside mappings one more item).  The tree is the application's; the schema is not."""
+    seen = set() if seen is None else seen
+    if id(v) in seen:
+        return
+    seen.add(id(v))
+    if hasattr(v, "getSectionAttributes"):
+        for a in v.getSectionAttributes():
+            _scribble(getattr(v, a, None), seen)
+    elif isinstance(v, cfgrun.zcvdt.Wrapped):
+        _scribble(v.inner, seen)
+    elif isinstance(v, list):
+        for x in list(v):
+            _scribble(x, seen)
+        v.append(SCRIBBLE)
+    elif isinstance(v, dict):
+        for x in list(v.values()):
+            _scribble(x, seen)
+        v[SCRIBBLE] = [SCRIBBLE]
+
+
+def _load_history(sd, texts, scribble=False, expected=None):
+    """a FRESH schema object (built from the schema text) serving the texts in order - every other load through one long-lived
+    ConfigLoader, the others through the module-level entry point; returns [(outcome, value tree or None)] per load, or, with
+    the expected trees given (None = nothing to compare), [(outcome, rendering of the tree, tree is the expected one)] - judged
+    and rendered BEFORE the application changes the result in place"""
+    real = F.load_real(sd)
+    loader = None
+    res = []
+    for j, lines in enumerate(texts):
+        if j % 2:
+            if loader is None:
+                from ZConfig.loader import ConfigLoader
+                loader = ConfigLoader(real)
+            import io
+            try:
+                cfg, _ = loader.loadFile(io.StringIO("\n".join(lines) + "\n"), cfgstream.URL)
+                out = ["ok"]
+            except Exception as e:
+                out, cfg = cfgrun.classify_exc(e), None
+        else:
+            out, cfg, _ = cfgrun.real_load(real, "\n".join(lines) + "\n", cfgstream.URL, reuse=False)
+        if expected is None:
+            res.append((out, cfg))
+        else:
+            res.append((out, _describe(out, cfg), expected[j] is not None and _yields(expected[j], out, cfg)))
+        if scribble and cfg is not None:
+            try:
+                _scribble(cfg)
+            except Exception:
+                pass      # (a tree that cannot be walked is found by the comparison, not here)
+    return res
+
+
+def _yields(expected, out, cfg):
+    try:
+        return out[0] == "ok" and cfgrun.match_val(expected, cfg)
+    except Exception:
+        return False
+
+
+def _describe(out, cfg):
+    if out[0] != "ok":
+        return out
+    try:
+        return cfgrun.describe(cfg)
+    except Exception as e:
+        return "describe raised " + type(e).__name__
+
+
+def _report_raised(ctx, before, c):
+    """a conforming text on which the loader raised something that is no configuration error.  The replay is made
+    self-contained: the text alone on a fresh schema object if that fails too (then shrunk), else the shortest sequence of the
+    texts this schema object had served before (in the order of the stream) after which it fails on a fresh one."""
+    what = "text the schema accepts (conforms) yields no value tree: the loader raised %s, which is no configuration error" % c.out[1]
+    expected = c.spec[1]
+
+    def fails_after(hist, lines=None):
+        out, cfg = _load_history(c.sd, list(hist) + [c.lines if lines is None else lines])[-1]
+        return out[0] == "internal", (out, cfg)
+    alone, (out, cfg) = fails_after([])
+    if alone:
+        def still(cands):
+            # (a shorter text must still conform and still make the loader raise, alone on a fresh schema object)
+            reqs = [cfgrun.spec_load_request(c.elab, ls, cfgstream.URL, env=cfgstream.ENV) for ls in cands]
+            specs = core.driver_batch(reqs, chunk=5000)
+            return [sp[0] == "accept" and fails_after([], ls)[0] for ls, sp in zip(cands, specs)]
+        from .. import util
+        small = c.lines if any("%include" in l for l in c.lines) else util.shrink_seq(list(c.lines), still)
+        out, cfg = fails_after([], small)[1]
+        exp = core.driver_batch([cfgrun.spec_load_request(c.elab, small, cfgstream.URL, env=cfgstream.ENV)])[0]
+        ctx.violate(what, dict(c.replay(), lines=small, history=[], impl=_describe(out, cfg), expected=exp[1] if exp[0] == "accept" else expected),
+                    signature="C02:value-tree")
+        return
+    hist = [x.lines for x in before if x.sd is c.sd and not any("%include" in l for l in x.lines)]
+    again, (out, cfg) = fails_after(hist)
+    if again:
+        from .. import util
+        hist = util.shrink_seq(hist, lambda cands: [fails_after(h)[0] for h in cands])
+        out, cfg = fails_after(hist)[1]
+        note = "loaded on a fresh schema object after the texts of 'history' (in that order); alone on a fresh schema object it yields the tree"
+    else:
+        out, cfg = c.out, None
+        note = "seen on the schema object of the stream after the texts of 'history'; not reproduced on a fresh schema object"
+    ctx.violate(what + " - on a schema object that served other loads before",
+                dict(c.replay(), history=hist, note=note, impl=_describe(out, cfg), expected=expected), signature="C02:value-tree")
+
+
+def _fallbacks(elab, items):
+    """the kinds of defaulted keys a (conforming) item tree leaves to the schema defaults, per section occurrence"""
+    out = []
+    for cont, tyname in cfggen._containers(items, None, []):
+        children, kt = cfggen._children_of(elab, tyname)
+        if children is None:
+            continue
+        given = {cfggen._norm(kt, it[1]) for it in cont if it[0] == "kv"}
+        fixed = {info[1] for _, info in children if info[0] == "key" and info[1] != "+"}
+        for _, info in children:
+            if info[0] != "key" or not (isinstance(info[6], list) and len(info[6]) > 1):
+                continue      # (no default, or an empty set of defaults)
+            if info[1] == "+":
+                if not (given - fixed):
+                    out.append("arbitrary-multikey" if info[3] else "arbitrary-key")
+            elif info[1] not in given:
+                out.append("multikey" if info[3] else "key")
+    return out
+
+
+def _leave_to_defaults(rng, elab, items, p=0.85):
+    """removes (in place), in a share p of the sections of an item tree (and of the top level), every key line of a key that
+    need not be given: what the section then holds under those keys is what the schema says it holds by default"""
+    for cont, tyname in cfggen._containers(items, None, []):
+        children, kt = cfggen._children_of(elab, tyname)
+        if children is None or rng.random() >= p:
+            continue
+        req = {info[1] for _, info in children if info[0] == "key" and info[4]}
+        fixed = {info[1] for _, info in children if info[0] == "key" and info[1] != "+"}
+
+        def needed(it):
+            k = cfggen._norm(kt, it[1])
+            return (k if k in fixed else "+") in req
+        cont[:] = [it for it in cont if it[0] != "kv" or needed(it)]
+
+
+def _defaults_again(ctx, cases):
+    """the defaults belong to the SCHEMA and every section value that needs them gets its own converted copy - however often
+    they were needed before.  Per schema of the main stream that declares defaults: one fresh schema object serves a text whose
+    sections leave their defaulted keys out (multisections: several such sections in the one text), the same text once more,
+    and a second such text; on every other schema the application changes each result's lists and mappings in place before the
+    next load.  ORACLE: `denote` for every load whose text conforms (accept / reject itself is C01's observable; an exception
+    that is no configuration error is no rejection)."""
+    rng = ctx.rng
+    sds, seen = [], set()
+    for c in cases:
+        if id(c.sd) in seen:
+            continue
+        seen.add(id(c.sd))
+        if any(info[0] == "key" and isinstance(info[6], list) and len(info[6]) > 1
+               for ch in [c.elab[2][4]] + [te[1][4] for _, te in c.elab[1] if te[0] == "concrete"] for _, info in ch):
+            sds.append((c.sd, c.elab))
+    if not ctx.thorough():
+        sds = sds[:60]
+    plans, reqs = [], []
+    for n, (sd, elab) in enumerate(sds):
+        texts = []
+        for _ in range(2):
+            for _ in range(6):
+                items = cfggen.gen_items(rng, elab, None, 3, pfill=0.9)
+                _leave_to_defaults(rng, elab, items)
+                fb = _fallbacks(elab, items)
+                if fb:
+                    break
+            texts.append((cfggen.render_lines(rng, items), fb))
+        seq = [texts[0], texts[0], texts[1]]
+        plans.append((sd, elab, seq, bool(n % 2)))
+        reqs.extend(cfgrun.spec_load_request(elab, ls, cfgstream.URL, env=cfgstream.ENV) for ls, _ in seq)
+    specs = core.driver_batch(reqs, chunk=5000) if (ctx.driver_ok and reqs) else []
+    for n, (sd, elab, seq, scribble) in enumerate(plans):
+        if not specs:
+            break
+        exp = [specs[3 * n + j][1] if specs[3 * n + j][0] == "accept" else None for j in range(len(seq))]
+        res = _load_history(sd, [ls for ls, _ in seq], scribble, exp)
+        for j, ((lines, fb), (out, impl, good)) in enumerate(zip(seq, res)):
+            sp = specs[3 * n + j]
+            ctx.evaluations += 1
+            ctx.count("defaults-again:" + ("spec-" + str(sp[0]) if sp[0] != "accept" else "load-%d" % (j + 1)) + (":results-changed-in-place" if scribble and j else ""))
+            if sp[0] != "accept" or out[0] == "cfg":
+                continue
+            for k in fb:
+                ctx.count("defaults-again:left-to-default:" + k + (":again" if j else ""))
+            if good:
+                if fb:
+                    ctx.nontriv(("defaults-again", id(sd), j, tuple(lines)))
+                continue
+            # the shortest history after which this load still goes wrong (none: the text alone on a fresh schema object)
+            from .. import util
+
+            def wrong(hist):
+                return not _load_history(sd, list(hist) + [lines], scribble, [None] * len(hist) + [sp[1]])[-1][2]
+            hist = [ls for ls, _ in seq[:j]]
+            if wrong(hist):
+                hist = [] if wrong([]) else util.shrink_seq(hist, lambda cands: [wrong(h) for h in cands])
+            ctx.violate("a text whose sections leave keys to the schema defaults does not yield the value tree the schema defines"
+                        + (" - on a schema object that needed the defaults before" if hist else ""),
+                        {"schema_xml": F.render_xml(sd), "lines": lines, "history": hist, "left_to_default": fb,
+                         "results_changed_in_place_between_loads": bool(scribble and hist), "url": cfgstream.URL,
+                         "impl": impl, "expected": sp[1]}, signature="C02:value-tree")
+            break
 
 
 # attribute names an application may well give and a value object may well use for fields of its own
